@@ -208,10 +208,13 @@ def matchRule : (fuel : Nat) → Rule → Tree → Env → Except Abn (Option Tr
           match indexById n kids with
           | none => .ok (none, env)
           | some index =>
-            match isMatchedI32 stepSize offset index with
-            | none => .error .panic                               -- i32 overflow (debug build)
-            | some false => .ok (none, env)
-            | some true =>
+            -- `FunctionalPosition::is_matched` computes in `i64` on `i32` operands (`parse_an_b`
+            -- rejects numbers outside `i32`): it is the mathematical function as long as
+            -- `index + 1 + 2^31 < 2^63` (`C20.isMatchedI64_exact`) — a node cannot have that many
+            -- children in a 64-bit address space — so the position test is total here
+            match isMatched stepSize offset index with
+            | false => .ok (none, env)
+            | true =>
               -- expose the bindings `ofRule` makes for the matched node itself
               match ofRule with
               | none => .ok (some n, env)
